@@ -118,11 +118,30 @@ static void cinv(long c) { int P = 1 + c % 3; c /= 3; int n = 2 + c % 9; vtbb::i
 // ---- a range that is not divisible must never be split
 struct Solid { int b, e; bool empty() const { return b >= e; } bool is_divisible() const { return false; } Solid(int b_, int e_) : b(b_), e(e_) {} Solid(Solid&, tbb::split) : b(0), e(0) { vf_fail("a range whose is_divisible() is false was split"); } };
 static void csolid(long c) { int part = c % 4; c /= 4; int P = 1 + c % 3; vtbb::init(P); int calls = 0; with_part(part, [&](auto& p) { tbb::parallel_for(Solid(0, 7), [&](const Solid& r) { calls++; if (r.b != 0 || r.e != 7) vf_fail("indivisible range changed"); }, p); }); vtbb::finish(); if (calls != 1) vf_fail("indivisible range: body called %d times", calls); vf_outcome("solid part=%d P=%d", part, P); }
+// ---- one split of a multi-dimensional range in which one dimension is exactly one grain (not divisible) and another is one element
+// longer than its grain G = 2^k: the split must go to the divisible dimension whatever the magnitudes (the choice compares
+// size/grainsize ratios; ties and rounding must not send the split to the dimension that cannot be split), both parts non-empty.
+static const int RK[] = {2, 10, 23, 24, 25, 31, 32, 40, 52, 53, 54, 62};
+template <class D> static void ratio_check(const char* what, unsigned long long g0, unsigned long long G, const D& solid_a, const D& solid_b, const D& long_a, const D& long_b) {
+    if (solid_a.begin() != 0 || solid_a.end() != g0 || solid_b.begin() != 0 || solid_b.end() != g0) vf_fail("%s: the dimension of size %llu with grainsize %llu (not divisible) was split into [%llu,%llu) and [%llu,%llu) although the other dimension (size %llu, grainsize %llu) is divisible", what, g0, g0, (unsigned long long)solid_a.begin(), (unsigned long long)solid_a.end(), (unsigned long long)solid_b.begin(), (unsigned long long)solid_b.end(), G + 1, G);
+    if (long_a.empty() || long_b.empty()) vf_fail("%s: a split produced an empty part", what);
+    if (long_a.begin() != 0 || long_a.end() != long_b.begin() || long_b.end() != G + 1) vf_fail("%s: the parts [%llu,%llu) and [%llu,%llu) do not tile [0,%llu)", what, (unsigned long long)long_a.begin(), (unsigned long long)long_a.end(), (unsigned long long)long_b.begin(), (unsigned long long)long_b.end(), G + 1); }
+static void cratio(long c) { typedef unsigned long long U; int kind = c % 4; c /= 4; int first = c % 2; c /= 2; int st = c % 3; c /= 3; U g0 = c % 2 ? 5 : 1; c /= 2; U G = (U)1 << RK[c % 12];
+    auto do_split = [&](auto& a) { typedef typename std::decay<decltype(a)>::type R; if (!a.is_divisible()) vf_fail("a range with a divisible dimension reports is_divisible() == false"); tbb::proportional_split p11(1, 1), p13(1, 3); return st == 0 ? R(a, tbb::split()) : st == 1 ? R(a, p11) : R(a, p13); };
+    if (kind == 0) { tbb::blocked_range2d<U> a = first ? tbb::blocked_range2d<U>(0, g0, g0, 0, G + 1, G) : tbb::blocked_range2d<U>(0, G + 1, G, 0, g0, g0); auto b = do_split(a);
+        if (first) ratio_check("blocked_range2d", g0, G, a.rows(), b.rows(), a.cols(), b.cols()); else ratio_check("blocked_range2d", g0, G, a.cols(), b.cols(), a.rows(), b.rows()); }
+    else if (kind == 1) { tbb::blocked_range3d<U> a = first ? tbb::blocked_range3d<U>(0, g0, g0, 0, g0, g0, 0, G + 1, G) : tbb::blocked_range3d<U>(0, G + 1, G, 0, g0, g0, 0, g0, g0); auto b = do_split(a);
+        if (first) { ratio_check("blocked_range3d", g0, G, a.pages(), b.pages(), a.cols(), b.cols()); ratio_check("blocked_range3d", g0, G, a.rows(), b.rows(), a.cols(), b.cols()); } else { ratio_check("blocked_range3d", g0, G, a.rows(), b.rows(), a.pages(), b.pages()); ratio_check("blocked_range3d", g0, G, a.cols(), b.cols(), a.pages(), b.pages()); } }
+    else if (kind == 2) { typedef tbb::blocked_nd_range<U, 2> R; tbb::blocked_range<U> s0(0, g0, g0), l0(0, G + 1, G); R a = first ? R(s0, l0) : R(l0, s0); auto b = do_split(a);
+        ratio_check("blocked_nd_range<2>", g0, G, a.dim(first ? 0 : 1), b.dim(first ? 0 : 1), a.dim(first ? 1 : 0), b.dim(first ? 1 : 0)); }
+    else { typedef tbb::blocked_nd_range<U, 3> R; tbb::blocked_range<U> s0(0, g0, g0), l0(0, G + 1, G); R a = first ? R(s0, s0, l0) : R(l0, s0, s0); auto b = do_split(a);
+        ratio_check("blocked_nd_range<3>", g0, G, a.dim(1), b.dim(1), a.dim(first ? 2 : 0), b.dim(first ? 2 : 0)); ratio_check("blocked_nd_range<3>", g0, G, a.dim(first ? 0 : 2), b.dim(first ? 0 : 2), a.dim(first ? 2 : 0), b.dim(first ? 2 : 0)); }
+    vf_outcome("ratio kind=%d first=%d split=%d g0=%llu G=2^%d", kind, first, st, g0, RK[c % 12]); }
 typedef void (*Fn)(long);
-static Fn fns[] = {c2d, c3d, cnd, chuge, cstr, cspan, c2dhuge, covl, cfeovl, cfe, cinv, csolid};
+static Fn fns[] = {c2d, c3d, cnd, chuge, cstr, cspan, c2dhuge, covl, cfeovl, cfe, cinv, csolid, cratio};
 static void scenario(long c) { for (size_t i = 0; i < blocks.size(); i++) if (c < starts[i] + blocks[i].count) { fns[i](c - starts[i]); return; } }
 int main(int argc, char** argv) {
-    blocks = {{"2d", 4L * 3 * 5 * 5 * 4}, {"3d", 4L * 2 * 4 * 4 * 3}, {"nd", 4L * 2 * 4 * 4 * 2}, {"huge", 4L * 3 * 7 * 3}, {"strided", 2L * 4 * 4 * 9 * 4}, {"span", 2L * (9180 + 3 * 120)}, {"2dhuge", 4L * 3 * 8}, {"overloads", 3L * 30 * 7}, {"fe-overloads", 3L * 7 * 5}, {"for_each", 3L * 2 * 6 * 3}, {"invoke", 3L * 9}, {"solid", 4L * 3}};
+    blocks = {{"2d", 4L * 3 * 5 * 5 * 4}, {"3d", 4L * 2 * 4 * 4 * 3}, {"nd", 4L * 2 * 4 * 4 * 2}, {"huge", 4L * 3 * 7 * 3}, {"strided", 2L * 4 * 4 * 9 * 4}, {"span", 2L * (9180 + 3 * 120)}, {"2dhuge", 4L * 3 * 8}, {"overloads", 3L * 30 * 7}, {"fe-overloads", 3L * 7 * 5}, {"for_each", 3L * 2 * 6 * 3}, {"invoke", 3L * 9}, {"solid", 4L * 3}, {"ratio", 4L * 2 * 3 * 2 * 12}};
     long s = 0; for (auto& b : blocks) { starts.push_back(s); s += b.count; }
     return vf_main_cases(argc, argv, s, scenario);
 }
